@@ -5,7 +5,7 @@ from ..index import AnalysisError, dotted
 from ..astutil import text, short, endswith, calls_in, walk_no_nested
 from .. import jsonshape
 from ..dataflow import DefUse
-from ._h_F import ifn, Res, res_of, call_arg, absent, alias_group
+from ._h_F import ifn, Res, res_of, call_arg, absent, alias_group, need, repo_callees
 
 EXPLANATION = (
   "Decides the chain shape of the migrations registry (versions unique, within 1..SCHEMA_VERSION, "
@@ -79,13 +79,25 @@ def r1_chain(run, w, migs):
     fn = ifn(w, fi.qualname)
     r = res_of(w, fn)
     rets = r.returns()
-    ok = bool(rets) and not r.bare_returns() and \
-        all(_is_apply(r, n, leaf, p) for (n, val) in rets for (f, leaf) in Res.cases(val))
-    # no path falls off the end without returning
-    ok = ok and not r.falls_off_end()
-    run.ob(R1, fi.qualname, "return %s.apply_doc_actions(...)" % p,
-           "the actions a migration reports are exactly those it applied to the data set", ok,
-           fi=fi)
+    def mig(fn=fn, r=r, rets=rets, p=p, fi=fi):
+      # a value handed back by a helper the rule cannot see into, or an untraceable local, is
+      # undecided; a visible value that is not the applied list is a violation
+      for (n, val) in rets:
+        for (f, leaf) in Res.cases(val):
+          if _is_apply(r, n, leaf, p):
+            continue
+          if isinstance(leaf, ast.Name) or (isinstance(leaf, ast.Call) and
+                                            repo_callees(w, fn, leaf)):
+            raise AnalysisError("%s: what is returned (%s) could not be traced to "
+                                "apply_doc_actions" % (fi.qualname, short(leaf, 50)))
+      ok = bool(rets) and not r.bare_returns() and \
+          all(_is_apply(r, n, leaf, p) for (n, val) in rets for (f, leaf) in Res.cases(val))
+      # no path falls off the end without returning
+      ok = ok and not r.falls_off_end()
+      run.ob(R1, fi.qualname, "return %s.apply_doc_actions(...)" % p,
+             "the actions a migration reports are exactly those it applied to the data set", ok,
+             fi=fi)
+    run.guard(mig)
   tds = ifn(w, "table_data_set.TableDataSet.apply_doc_actions")
   tr = res_of(w, tds)
   rets = tr.returns()
@@ -149,6 +161,7 @@ def r1_chain(run, w, migs):
         ((isinstance(e.right, ast.Constant) and e.right.value == 1 and pred(e.left)) or
          (isinstance(e.left, ast.Constant) and e.left.value == 1 and pred(e.right)))
   runs = [el for el in els if el.loops]
+  need(runs, "the loop that collects each version's migration actions", cm)
   ok = len(runs) >= 1
   for el in runs:
     tg, it = el.loops[-1]
@@ -185,6 +198,8 @@ def r1_chain(run, w, migs):
         [(text(k), text(v)) for k, v in zip(a.args[2].keys, a.args[2].values)] == \
         [("'schemaVersion'", "schema.SCHEMA_VERSION")]:
       stamps.append(el)
+  if not stamps:
+    absent(w, cm, "the schemaVersion stamp appended to the collected actions")
   ok = len(stamps) == 1
   if ok:
     st = stamps[0]
